@@ -153,4 +153,41 @@ RECIPES = [
         setattr(out, name, modes)
     out.effmass, out.effmass_percent, out.cb_frq = effmass, effmass_percent, frq
     return out""", "cbcheck: namespace filled with setattr in a loop"),
+    # ---- pass 3: spellings of the fresh neutral round (N11 / N12) and of my own refactorings, one replacement each
+    ("C06", "neutral", [], CB, "    freq = np.atleast_1d(freq).ravel()\n    Omega", "    freq = np.ravel(np.atleast_1d(freq))\n    Omega", "cbtf: function form of ravel"),
+    ("C06", "neutral", [], CB, "            try:\n                tf = save[\"tf\"]\n            except KeyError:\n                pass\n",
+     "            from contextlib import suppress\n\n            with suppress(KeyError):\n                tf = save[\"tf\"]\n", "cbtf: contextlib.suppress instead of try / except / pass"),
+    ("C06", "neutral", [], CB, "    b = np.atleast_1d(b).ravel()\n    lb = len(b)\n", "    b = np.ravel(np.atleast_1d(b))\n    lb = b.size\n", "cbreorder: .size of the flattened vector"),
+    ("C06", "neutral", [], CB, "    trn = ytools.mkpattvec([0, 1, 2], lb, 6).ravel()\n    rot = trn + 3\n    C[b[trn]]",
+     "    trn = ytools.mkpattvec(start=[0, 1, 2], stop=lb, inc=6).ravel()\n    rot = trn + 3\n    C[b[trn]]", "cbconvert: keyword arguments of a function of a sibling module"),
+    ("C06", "neutral", [], CB, "    c_chk = cbcoordchk(\n        k,\n        bset,\n        bref,\n        uset.index.get_level_values(\"id\")[::6],\n        ttl,\n        True,\n        f,\n        rb_normalizer,\n    )",
+     "    c_chk = _cbcoordchk(f, k, bset, bref, uset.index.get_level_values(\"id\")[::6], ttl, True, rb_normalizer)", "cbcheck: the worker called directly instead of the public wrapper"),
+    ("C06", "neutral", [], CB, "            M = M[np.ix_(pv, pv)]", "            M = M[pv][:, pv]", "cbreorder: rows then columns (chained indexing) instead of np.ix_"),
+    ("C06", "neutral", [], CB, "        f = b[qb] @ v - m[qb] @ a\n", "        part = lambda X: X[qset][:, bset]\n        f = part(b) @ v - part(m) @ a\n", "cbtf: partition through a lambda with chained indexing"),
+    ("C06", "neutral", [], CB, "            pv = np.hstack((q, b))", "            pv = np.r_[q, b]", "cbreorder: np.r_ index trick"),
+    ("C06", "neutral", [], CB, "    pvnz = Omega != 0.0\n", "    pvnz = np.not_equal(Omega, 0.0)\n", "cbtf: np.not_equal"),
+    ("C06", "neutral", [], CB, "    nz = m.any(axis=0) | k.any(axis=0)\n", "    nz = (m != 0).any(axis=0) | np.any(k != 0, axis=0)\n", "_solve_eig: explicit comparison with zero under any()"),
+    ("C06", "neutral", [], CB, "        psi = linalg.solve(-k[zz], k[zx])\n", "        psi = linalg.solve(-k[z_m][:, z_m], k[z_m][:, nz_m])\n", "_solve_eig: chained mask indexing for the massless partitions"),
+    ("C06", "neutral", [], CB, "    C = np.ones(lt)\n    D = np.ones(lt)\n", "    C = np.full(lt, 1.0)\n    D = C.copy()\n", "cbconvert: np.full and a copy of the sibling diagonal"),
+    ("C06", "neutral", [], CB, "    C = np.ones(lt)\n    D = np.ones(lt)\n", "    C = np.ones(lt)\n    D = np.empty(lt)\n", "cbconvert: D is stored on every DOF, so it may start uninitialised"),
+    ("C06", "neutral", [], CB, "    pv = dof == 1\n    uset.iloc[pv, 1:] *= lengthconv\n    pv = dof == 3\n", "    pv = np.flatnonzero(dof == 1)\n    uset.iloc[pv, 1:] *= lengthconv\n    pv = np.nonzero(dof == 3)[0]\n",
+     "uset_convert: integer row positions instead of row masks"),
+    ("C06", "neutral", [], CB, "    qset = locate.flippv(bset, lt)\n\n    pvnz", "    from pyyeti.locate import flippv as _complement\n\n    qset = _complement(bset, lt)\n\n    pvnz", "cbtf: function imported under another name"),
+    ("C06", "neutral", [], CB, "        accel = displ.copy()\n        displ[np.ix_(bset, pvnz)]", "        accel = np.zeros_like(displ)\n        displ[np.ix_(bset, pvnz)]", "cbtf: zeros_like instead of a copy of the (still zero) displacement"),
+    ("C06", "neutral", [], CB, "        frc = m[bset] @ accel + b[bset] @ veloc + k[bb] @ displ[bset]", "        frc = m[bset] @ accel\n        frc += b[bset] @ veloc\n        frc += k[bb] @ displ[bset]",
+     "cbtf: force accumulated with augmented assignments (same association)"),
+    # siblings of the round-3 seeds F (order of the boundary set lost), H (sign in the static condensation) and of the new spellings
+    ("C06", "break", ["C06-R1"], CB, "    bset = np.atleast_1d(bset).ravel()\n    lt = m.shape[0]", "    bset = np.sort(np.atleast_1d(bset).ravel())\n    lt = m.shape[0]",
+     "cbtf: boundary set sorted - row i of `a` is no longer applied to bset[i]"),
+    ("C06", "break", ["C06-R1"], CB, "    bset = np.atleast_1d(bset).ravel()\n    lt = m.shape[0]", "    bset = np.unique(bset)\n    lt = m.shape[0]", "cbtf: boundary set made unique (sorted)"),
+    ("C06", "break", ["C06-R1"], CB, "        accel[bset] = a\n", "        accel[np.sort(bset)] = a\n", "cbtf: enforced acceleration stored in ascending DOF order"),
+    ("C06", "break", ["C06-R3"], CB, "            M = M[np.ix_(pv, pv)]", "            M = M[pv][pv]", "cbreorder: rows permuted twice, columns not at all"),
+    ("C06", "break", ["C06-R3"], CB, "            M = M[np.ix_(pv, pv)]", "            M = M[pv][:, np.sort(pv)]", "cbreorder: columns left in ascending order"),
+    ("C06", "break", ["C06-R4"], CB, "        k = k[xx] + k[xz] @ psi\n", "        k = k[xx] - k[xz] @ psi\n", "_solve_eig: sign of the condensation term (psi already carries the minus)"),
+    ("C06", "break", ["C06-R4"], CB, "        psi = linalg.solve(-k[zz], k[zx])\n", "        psi = linalg.solve(-k[zz], k[xz])\n", "_solve_eig: condensation matrix from the transposed coupling partition"),
+    ("C06", "break", ["C06-R4"], CB, "        v2[z_m, :] = psi @ v\n", "        v2[z_m, :] = -psi @ v\n", "_solve_eig: massless rows expanded with the wrong sign"),
+    ("C06", "break", ["C06-R2"], CB, "    pv = dof == 3\n", "    pv = np.flatnonzero(dof == 2)\n", "uset_convert: id row scaled instead of the origin row (integer positions)"),
+    ("C06", "break", ["C06-R2"], CB, "    C = np.ones(lt)\n", "    C = np.full(lt, 0.0)\n", "cbconvert: displacement diagonal starts as zeros - boundary rotations wiped"),
+    ("C06", "break", ["C06-R5"], CB, "    c_chk = cbcoordchk(\n        k,\n        bset,\n        bref,\n", "    c_chk = cbcoordchk(\n        k,\n        bset,\n        bset[:6],\n",
+     "cbcheck: stiffness-based modes referenced to the first boundary grid instead of bref"),
 ]
